@@ -223,4 +223,8 @@ def fval(x):
 
 def signed(env, v, p):
     """signed representative of a canonical field value."""
+    c = getattr(v, 'cong', None)
+    if c is not None and c[1] == p and c[0].lo is not None and c[0].hi is not None and -(p // 2) < c[0].lo and c[0].hi < p // 2:
+        from vf import symx
+        return symx.SymInt(c[0].t, c[0].lo, c[0].hi)       # v == U mod p with |U| < p/2: the unreduced term U is the signed representative
     return env.ite(v > p // 2, v - p, v)
